@@ -26,6 +26,14 @@ CHECKS = {
    note='Trusted: R-SUB and the oracle reading of "consistent pre-assignment" (satisfiable along the bound chain). Inner '
         'trees are capped (reported); the universe of declarations is fixed.',
    technique='exhaustive choice-tree DFS of the real helper per input (stateless model checking of a randomised function)'),
+ 'C09': dict(engine='SSE+inner-DFS', category='model_checking', design_ref='5 C09',
+   text='For SSE class tables x every query type (depth 1, all projections) x flag combinations, the inner choice tree of '
+        'find_subtypes / find_irrelevant_type is walked (search-level draws fully, nested instantiation draws with <=1 '
+        'deviation) and every returned type is judged by R-SUB: usable, below the query, self iff asked; irrelevant results '
+        'flagged only when definitely related; nothing for the top type; type-variable queries against the bound.',
+   note='Trusted: R-SUB. Quick: 7 tables, 400 leaves per query (capped queries are reported, exhaustive=false); thorough: all '
+        'tables, 30 000 leaves.',
+   technique='exhaustive choice-tree DFS of the real searches per (class table, query) against a reference relation'),
  'C11': dict(engine='CTE+HBFS', category='model_checking', design_ref='5 C11',
    text='For every pipeline execution within the deviation bound, an explicit-state BFS over translation histories on '
         'long-lived translator objects (3 programs x 4 languages, depth 3, state merging on translator attributes; '
@@ -88,9 +96,9 @@ ENGINES = [
   'kind_free_text': 'stateless deviation-bounded explorer of the choice tree of the real pipeline (ChoiceSource replaces src.utils.random.r)'},
  {'name': 'exhaustive-graphs', 'path': 'mc/props/c19.py', 'serves_properties': ['C19'],
   'kind_free_text': 'enumeration of all digraphs up to 4 (5) vertices'},
- {'name': 'SSE', 'path': 'mc/universe.py', 'serves_properties': ['C06'],
+ {'name': 'SSE', 'path': 'mc/universe.py', 'serves_properties': ['C06', 'C09'],
   'kind_free_text': 'small-scope enumeration of class tables (skeleton grammar) and types built through the real constructors'},
- {'name': 'inner-DFS', 'path': 'mc/inner.py', 'serves_properties': ['C08'],
+ {'name': 'inner-DFS', 'path': 'mc/inner.py', 'serves_properties': ['C08', 'C09'],
   'kind_free_text': 'complete enumeration of the random-choice tree of one helper call'},
  {'name': 'OUT', 'path': 'mc/ref/output_grammar.py', 'serves_properties': ['C14'],
   'kind_free_text': 'generative grammar of javac/kotlinc/groovyc/scalac batch output, exhaustively enumerated'},
